@@ -301,6 +301,9 @@ func attacks(m krammar.Mark, rem int, giant bool) [][]byte {
 		for _, v := range []uint64{1, uint64(r) + 1, 1 << 16} {
 			out = append(out, uv(v))
 		}
+		if bigTagCounts { // the loop was probed to stop on an exhausted reader
+			out = append(out, uv(1<<31), uv(math.MaxUint32))
+		}
 		out = append(out, overlong[0], overlong[1], overlong[4])
 	case krammar.MarkTagKey:
 		for _, v := range []uint64{0, 1, 2, math.MaxUint32} {
@@ -584,6 +587,40 @@ type checker struct {
 	wmu       sync.Mutex
 	worstPm   uint64
 	worstCase string
+
+	spinOnce sync.Once
+	spins    bool // the tag loop spins on an exhausted reader (probed once)
+}
+
+// probeSpin decodes the shortest known spinning input (tag count 2^32-1 in a
+// struct without known tags, nothing behind it) in a goroutine and waits up
+// to two seconds of real time. Only the decision "skip cpu-hazard inputs or
+// run them" depends on it, never a verdict: on a tree where the loop stops on
+// an exhausted reader the hazard inputs are decoded and judged like all
+// others, on one where it spins they are set aside as before.
+func (c *checker) probeSpin() bool {
+	c.spinOnce.Do(func() {
+		done := make(chan struct{})
+		go func() {
+			defer close(done)
+			vh.Catch(func() {
+				v := kmsg.NewPtrApiVersionsRequest()
+				v.SetVersion(3)
+				v.ReadFrom([]byte{0x01, 0x01, 0xff, 0xff, 0xff, 0xff, 0x0f})
+			})
+		}()
+		select {
+		case <-done:
+		case <-time.After(2 * time.Second):
+			c.spins = true
+		}
+		if c.spins {
+			c.cnt.add("tag_loop_spins_on_exhausted_reader", 1)
+		} else {
+			c.cnt.add("tag_loop_stops_on_exhausted_reader", 1)
+		}
+	})
+	return c.spins
 }
 
 func (c *checker) worst(pm uint64, what string) {
@@ -594,6 +631,9 @@ func (c *checker) worst(pm uint64, what string) {
 	c.wmu.Unlock()
 }
 
+// bigTagCounts is set once, before any input is generated, from probeSpin.
+var bigTagCounts bool
+
 // tagLoopLimit: inputs whose tag count (in a struct without known tags)
 // exceeds this are set aside, see krammar.Scan.
 const tagLoopLimit = 1 << 17
@@ -602,6 +642,9 @@ const tagLoopLimit = 1 << 17
 // time is not judged by this property and a spinning decode cannot be
 // interrupted, so such inputs are counted and not run.
 func (c *checker) cpuHazard(t *target, version int, in []byte) bool {
+	if !c.probeSpin() {
+		return false
+	}
 	if t.st != nil {
 		return krammar.Scan(t.st, version, in).MaxTaglessCount > tagLoopLimit
 	}
@@ -814,7 +857,7 @@ func TestCheck(t *testing.T) {
 	rule := "cases: for every generated type (requests and responses of every key, named message types, Record, RecordBatch, MessageV0/V1, StickyMemberMetadata) x every version 0..max+1: valid encodings (independent interpreter, 4 value modes; generated encoder on random and default values) and their mutations: every truncation (sampled at field boundaries above 160 bytes), single and multi bit flips (every bit of encodings up to 64 bytes), structure-aware length-field attacks at marked positions (array/bytes/string/varint lengths, tag count/key/size, nullable flag: remaining+1, 2^16, 2^20, 2^26, MaxInt32, -1, -2, MinInt32, null, overlong and overflowing varints), blind length overwrites and inserts, byte patterns and random bytes; each through ReadFrom and UnsafeReadFrom. Judged: no panic; re-encode/decode fix-point on every accepted input; bytes allocated by one call (TotalAlloc delta, serial phase: all length attacks on 2 seeds per pair, patterns, sampled mutations) <= 16*maxElemSize*(len+1)+16KiB. Non-trivial: the input was accepted, or its first mutated byte lies after a complete field of a valid encoding; distinct by (type, version, accepted/rejected)"
 	assume := []string{
 		"allocation is measured as runtime.MemStats.TotalAlloc deltas around single calls in a serial phase of the test process; maxElemSize is the largest slice element of the Go type (reflect), at least 32",
-		"CPU time is not judged: a tagged-field count near 2^32 in a struct without known tags makes kmsg's tag loop spin for about a minute on an exhausted reader (observed, see level_note). Inputs whose tag count in such a struct exceeds 2^17 (found by walking the input along the definition, krammar.Scan) are counted as cpu_hazard_not_run and not decoded",
+		"CPU time is not judged. A tagged-field count near 2^32 in a struct without known tags used to make kmsg's tag loop spin for about a minute on an exhausted reader (repaired, see known_findings.json); the run probes once whether that loop still spins (counter tag_loop_*): if it does, inputs whose tag count in such a struct exceeds 2^17 (krammar.Scan) are counted as cpu_hazard_not_run and not decoded, otherwise they are decoded and judged like all others",
 		"decoding into a fresh value each time (ReadFrom does not clear fields that are absent at the version)",
 	}
 	limitAddressSpace()
@@ -837,6 +880,7 @@ func TestCheck(t *testing.T) {
 	cnt := &counters{m: map[string]int64{}}
 	prog := openProgress()
 	chk := &checker{r: r, cnt: cnt, prog: prog}
+	bigTagCounts = !chk.probeSpin()
 	r.Count("types", len(targets))
 	r.Count("types_with_interpretable_definition", withDef)
 	r.Count("pairs", len(pairs))
